@@ -389,11 +389,21 @@ func (o *coreOracle) checkRolloutStatus(s *Sim, w *Write) {
 	if ns.CurrentStepState == rs.CurrentStepState {
 		return
 	}
-	// G4: order of sub-states
+	// G4: order of sub-states.  BeforeStepUpgrade falls through into StepUpgrade within one reconcile, so
+	// Init -> X is legal whenever Upgrade -> X is (and is then judged like leaving StepUpgrade).
+	from := rs.CurrentStepState
 	legal := false
-	for _, x := range nextState[rs.CurrentStepState] {
+	for _, x := range nextState[from] {
 		if x == ns.CurrentStepState {
 			legal = true
+		}
+	}
+	if !legal && from == v1beta1.CanaryStepStateInit {
+		for _, x := range nextState[v1beta1.CanaryStepStateUpgrade] {
+			if x == ns.CurrentStepState {
+				legal = true
+				from = v1beta1.CanaryStepStateUpgrade
+			}
 		}
 	}
 	if !legal {
@@ -406,7 +416,7 @@ func (o *coreOracle) checkRolloutStatus(s *Sim, w *Write) {
 		return
 	}
 	step := steps[idx-1]
-	switch rs.CurrentStepState {
+	switch from {
 	case v1beta1.CanaryStepStatePaused:
 		// G2: pause satisfied
 		last100 := idx == len(steps) && step.Replicas != nil && step.Replicas.StrVal == "100%"
@@ -501,6 +511,9 @@ func (o *coreOracle) checkBRStatusWrite(s *Sim, w *Write) {
 	}
 	// B1: a batch is reported Ready only when the workload (as this reconcile saw it) is ready
 	entering := ob.Status.CanaryStatus.CurrentBatchState != v1beta1.ReadyBatchState || ob.Status.CanaryStatus.CurrentBatch != nb.Status.CanaryStatus.CurrentBatch
+	if ob.Status.ObservedReleasePlanHash != "" && ob.Status.ObservedReleasePlanHash != nb.Status.ObservedReleasePlanHash {
+		entering = true // the status claims Ready for a plan it has just observed: the plan changed, so it must hold for the new plan
+	}
 	if nb.Status.Phase == v1beta1.RolloutPhaseProgressing && nb.Status.CanaryStatus.CurrentBatchState == v1beta1.ReadyBatchState && entering {
 		if msg := o.batchNotReady(s, rd, int(nb.Status.CanaryStatus.CurrentBatch)); msg != "" {
 			s.Violate("C11", "B1-ready", "B1/"+fam, w.Seq, "batch %d reported Ready but %s", nb.Status.CanaryStatus.CurrentBatch, msg)
